@@ -647,6 +647,75 @@ def explore_shard(arg):
     return res
 
 
+def nested_serial(arg):
+    """the sequential specification with nested loads (`loadN`, theorem each_load_correct_nested)
+    against the real loader: the top-level loads of a scenario performed one after the other by
+    one thread, in a seeded order, includes re-entering `load` from the callback"""
+    scn, seed = arg
+    scn = norm_scenario(scn)
+    res = Result()
+    if has_writer(scn):
+        return res
+    lines, expect, cases = [], [], []
+    try:
+        for k in range(6):
+            rng = random.Random('%s/%s/%d/C16-nested' % (seed, scn['name'], k))
+            loads = [(tid, b) for tid, names in enumerate(scn['threads']) for b in names]
+            if k:
+                rng.shuffle(loads)
+                loads = loads + [rng.choice(loads) for _ in range(rng.randrange(0, 4))]
+            e = env()
+            obs = Obs()
+            loader = build(scn, obs, e)
+            results = []
+            for tid, b in loads:
+                try:
+                    t = loader.load(tname(b))
+                    results.append([tid, [Atom('ok'), obs.obj(t)]])
+                except Exception as ex:  # noqa
+                    results.append([tid, [Atom('err'), Atom('CallbackError' if not isinstance(ex, (IOError, OSError)) and
+                                                             type(ex).__name__ not in ('TemplateNotFound', 'TemplateSyntaxError', 'TemplateError')
+                                                             else type(ex).__name__)]])
+            res.evaluations += 1
+            res.count('nested-serial:' + scn['name'])
+            cache = loader._cache
+            order = []
+            for key in cache:
+                order.append(key)
+                if len(order) > len(cache._dict) + 2:
+                    break
+            items = [[[N, B(False), int(os.path.basename(key)[1:-4])],
+                      obs.obj(cache._dict[key].value) if key in cache._dict else -1] for key in order]
+            lk = loader._lock
+            ncb = len(obs.inst) if scn['callback'] else 0
+            setup = [[Atom('W'), DIR, B(False), b, f['content'], B(bool(f.get('bad')))]
+                     for b, f in sorted(scn['files'].items())]
+            for op in scn['setup']:
+                if op[0] == 'L':
+                    setup.append([Atom('L'), op[1], B(False), N, N, 0, 0, B(False), N])
+                elif op[0] == 'W':
+                    setup.append([Atom('W'), DIR, B(False), op[1], op[2], B(bool(scn['files'].get(op[1], {}).get('bad')))])
+                elif op[0] == 'T':
+                    setup.append([Atom('T'), DIR, B(False), op[1]])
+            lines.append(proto.line(Atom('C16'), Atom('nested'), scn['cap'], B(scn['auto_reload']), B(scn['callback']),
+                                    [[Atom('D'), DIR, B(False)]], setup,
+                                    [[tid, wire_req(scn, b, False)] for tid, b in loads]))
+            expect.append(proto.enc([Atom('ok'), items, results, len(obs.inst), lk.depth, ncb]))
+            cases.append([[tid, b] for tid, b in loads])
+            if any(scn['files'].get(b, {}).get('includes') for _, b in loads) and scn['callback'] and not scn['auto_reload']:
+                res.count('nested-serial:with includes')
+    finally:
+        cleanup()
+    answers = proto.run_lines(lines)
+    for ld, ans, exp in zip(cases, answers, expect):
+        res.streams['nested-serial'] = res.streams.get('nested-serial', 0) + 1
+        if ans != exp:
+            res.disagreements.append({'stream': 'nested-serial', 'case': {'kind': 'selfcheck', 'variant': 'nested-serial',
+                                                                         'scenario': scn['name'], 'loads': ld},
+                                      'model': ans[:1200], 'real': exp[:1200]})
+    return res
+
+
 def validator_selfcheck(_):
     """the trace validator must reject traces that are not executions of the model: a second
     thread acquiring a held lock, a cache operation without the lock, a wrong stored object, a
@@ -742,6 +811,8 @@ def run(ctx):
     for r in pmap('harness.props.c16', 'explore_shard', args):
         res.merge(r)
     for r in pmap('harness.props.c16', 'validator_selfcheck', [0]):
+        res.merge(r)
+    for r in pmap('harness.props.c16', 'nested_serial', [(scn, ctx.seed) for scn in scns]):
         res.merge(r)
     res.failures.sort(key=lambda f: 1 if f.get('soft') else 0)
     inner = 0
